@@ -27,6 +27,7 @@ class QueueEventPlayer(ConfigPlayer):
                 **settings['args'])
         else:
             self.machine.events.post_queue(settings['queue_event'],
+                                           callback=None,
                                            **settings['args'])
 
     def validate_config_entry(self, settings, name):
@@ -34,7 +35,9 @@ class QueueEventPlayer(ConfigPlayer):
         config = self._parse_config(settings, name)
         return config
 
-    def _callback(self, event, s):
+    def _callback(self, event, s, **kwargs):
+        # the event manager calls the callback of a queue event with the kwargs of that event
+        del kwargs
         self.machine.events.post(event, **s)
 
     def get_express_config(self, value):
